@@ -50,6 +50,16 @@ func init() {
 				emit("delete", []byte(c[:i]+c[i+1:]))
 			}
 		}
+		// every insertion, at every position of the corpus, of a fragment that makes the TOKENISER fail or change state
+		// (a quote, an illegal character, an invalid byte, an opening bracket, the beginning of a comment): every parse
+		// function meets a tokeniser error at every point of its tag
+		for _, c := range c01Corpus {
+			for i := 0; i <= len(c); i++ {
+				for _, f := range []string{"'", "$", "\xff", "(", "\"", "{#", "#{"} {
+					emit("inject", []byte(c[:i]+f+c[i:]))
+				}
+			}
+		}
 		for i := 0; i < n; i++ {
 			switch rng.Intn(4) {
 			case 0: // uniform bytes
